@@ -4,22 +4,25 @@ import Pcore.Model.Print
 
 Core Lean only.
 
-Fragment: the parameterless core types (by name), `Integer[…]`, `String[…]` (size-constrained, and the exact-value form
-inside `Optional`/`NotUndef`), `Boolean[b]`, `Enum[…]`, `Regexp[/…/]`, `Pattern[…]`, the six unary wrappers
-`Optional NotUndef Type Sensitive Iterable Iterator`, `Variant[…]`, `Array[…]`, `Hash[…]`, `Collection[…]`, `Tuple[…]`.
-Not in the fragment: `Float[…]` (float rendering), `Struct`, `Callable`, `Runtime`, `Init`, `Like`, `Object`,
-`TypeSet`, aliases, `TypeReference`, the leaf types with parameters (`Timespan Timestamp SemVer SemVerRange URI`).
+Fragment: the parameterless core types (by name), `Integer[…]`, `Float[lo, hi]` (decimal float rendering is the parameter
+`Env.ff`, reading is `Env.pf`), `String[…]` (size-constrained, and the exact-value form inside `Optional`/`NotUndef`),
+`Boolean[b]`, `Enum[…]`, `Regexp[/…/]`, `Pattern[…]`, the six unary wrappers `Optional NotUndef Type Sensitive Iterable
+Iterator`, `Variant[…]`, `Array[…]`, `Hash[…]`, `Collection[…]`, `Tuple[…]`, `Struct[{…}]`.
+Not in the fragment: `Callable`, `Runtime`, `Init`, `Like`, `Object`, `TypeSet`, aliases, `TypeReference`, the leaf types
+with parameters (`Timespan Timestamp SemVer SemVerRange URI`).
 
 Code ↔ model map
 * `types/types.go TypeToString / basicTypeToString`             → `tyExpr` builds the expression `Name` / `Name[p, …]`
                                                                     whose program-format text is the type's text
                                                                     (`printTy = printVal ∘ tyExpr`)
-* `Parameters()` of `IntegerType scStringType BooleanType EnumType RegexpType PatternType OptionalType NotUndefType
-  TypeType SensitiveType IterableType IteratorType VariantType ArrayType HashType CollectionType`, `IntegerType.SizeParameters`
+* `Parameters()` of `IntegerType FloatType scStringType BooleanType EnumType RegexpType PatternType OptionalType NotUndefType
+  TypeType SensitiveType IterableType IteratorType VariantType ArrayType HashType CollectionType StructType`,
+  `IntegerType.SizeParameters`
                                                                   → the cases of `tyExpr` (`sizeParams`)
 * `types/deferredtype.go DeferredType.Resolve, resolveValue`     → `resolve`, `resolveArg`, `resolveArgs`
 * `types/resolver.go Resolve / ResolveWithParams`                → `resolveName`, `create`
-* `newIntegerType2 NewIntegerType newStringType2 NewStringType newBooleanType2 newEnumType3 NewEnumType newRegexpType2
+* `newIntegerType2 NewIntegerType newFloatType2 NewFloatType newStringType2 NewStringType newBooleanType2 newEnumType3
+  NewEnumType newRegexpType2 newStructType2 NewStructElement
   newPatternType3 newOptionalType2/3 newNotUndefType2/3 newTypeType2 newSensitiveType2 newIterableType2 newIteratorType2
   newVariantType3 newArrayType2 NewArrayType newHashType2 NewHashType newCollectionType2`
                                                                   → `newInt newStr enumArgs patArgs variantArgs sizes2 …`
@@ -30,7 +33,10 @@ Quirks mirrored: `Variant[T]` is `T`; `Array[0, 0]` / `Array[Unit, 0, 0]` is the
 without key/value types are ignored; a negative minimum length of `String` is clamped to 0 and `String[0, default]` is
 `String`; `String['']` is `String`; `Optional['x']`/`NotUndef['x']` hold the exact-value String; `Enum[[…], …]` flattens
 a leading array, a trailing Boolean is the case-insensitivity flag (values are then lower-cased — ASCII only in this
-model), an empty Enum is the default Enum; `Regexp['']` is the default Regexp.
+model), an empty Enum is the default Enum; `Regexp['']` is the default Regexp; a bound of `Float[…]` must be a Float value
+(an Integer is refused: `toFloat`), `Float[-1.7976931348623157e308, x]` prints `Float[default, x]`, `Float[0.0, -0.0]` is
+accepted (`0.0 > -0.0` is false) and keeps the signs of its zeros; a plain-string Struct key is optional exactly when the
+value type accepts `undef`, `String['a'] => T` is always a required key, duplicate member names are kept.
 -/
 namespace Pcore.Syntax
 
@@ -51,12 +57,13 @@ def WrapKind.name : WrapKind → Str
 
 /-- the parameterized core types of the fragment -/
 inductive TKind where
-  | integer | string | boolean | enum | regexp | pattern | variant | array | hash | collection | tuple | struct
+  | integer | float | string | boolean | enum | regexp | pattern | variant | array | hash | collection | tuple | struct
   | wrap (k : WrapKind)
   deriving DecidableEq, Repr
 
 def TKind.name : TKind → Str
   | .integer => "Integer".toList
+  | .float => "Float".toList
   | .string => "String".toList
   | .boolean => "Boolean".toList
   | .enum => "Enum".toList
@@ -71,7 +78,7 @@ def TKind.name : TKind → Str
   | .wrap k => k.name
 
 def allKinds : List TKind :=
-  [.integer, .string, .boolean, .enum, .regexp, .pattern, .variant, .array, .hash, .collection, .tuple, .struct,
+  [.integer, .float, .string, .boolean, .enum, .regexp, .pattern, .variant, .array, .hash, .collection, .tuple, .struct,
    .wrap .optional, .wrap .notUndef, .wrap .type_, .wrap .sensitive, .wrap .iterable, .wrap .iterator]
 
 /-- `coreTypes[name]` restricted to the parameterized types of the fragment -/
@@ -80,6 +87,7 @@ def kindOf (n : Str) : Option TKind := allKinds.find? fun k => k.name == n
 inductive Ty where
   | named (n : Str)
   | int (lo hi : Int)
+  | float (lo : Nat) (lot : Str) (hi : Nat) (hit : Str)   -- IEEE-754 bits of `min` / `max`, each with its printed text
   | strSz (lo hi : Int)
   | strVal (s : Str)
   | bool (b : Option Bool)
@@ -99,6 +107,7 @@ mutual
 def Ty.beq : Ty → Ty → Bool
   | .named a, .named b => a == b
   | .int a b, .int c d => a == c && b == d
+  | .float a b c d, .float e f g h => a == e && b == f && c == g && d == h
   | .strSz a b, .strSz c d => a == c && b == d
   | .strVal a, .strVal b => a == b
   | .bool a, .bool b => a == b
@@ -129,7 +138,7 @@ def tyString : Ty := .named "String".toList
 
 /-- the parameterless types of the fragment: a bare name that resolves to a type which prints as that name -/
 def plainNames : List Str :=
-  ["Any", "Unit", "Undef", "Default", "Scalar", "ScalarData", "Numeric", "Data", "RichData", "Binary", "Float", "String",
+  ["Any", "Unit", "Undef", "Default", "Scalar", "ScalarData", "Numeric", "Data", "RichData", "Binary", "String",
    "Callable", "Timespan", "Timestamp", "SemVer", "SemVerRange", "URI", "Runtime", "Object", "Init",
    "TypeSet"].map String.toList
 
@@ -144,6 +153,18 @@ def sizeParams (lo hi : Int) : List Val := [.int lo, if hi = i64max then .dflt e
 def intParams (lo hi : Int) : List Val :=
   if lo = i64min then (if hi = i64max then [] else [.dflt, .int hi])
   else if hi = i64max then [.int lo] else [.int lo, .int hi]
+
+/-- `-math.MaxFloat64`, `math.MaxFloat64` as IEEE-754 bits -/
+def fNegMax : Nat := 0xFFEFFFFFFFFFFFFF
+def fPosMax : Nat := 0x7FEFFFFFFFFFFFFF
+
+/-- the order of two non-NaN floats given by their bits (`-0.0` and `0.0` compare equal) -/
+def fkey (b : Nat) : Int := if b ≥ 2 ^ 63 then -((b - 2 ^ 63 : Nat) : Int) else (b : Int)
+
+/-- `FloatType.Parameters` -/
+def floatParams (lo : Nat) (lot : Str) (hi : Nat) (hit : Str) : List Val :=
+  if lo = fNegMax then (if hi = fPosMax then [] else [.dflt, .float hi hit])
+  else if hi = fPosMax then [.float lo lot] else [.float lo lot, .float hi hit]
 
 def Ty.isAny : Ty → Bool
   | .named n => n == "Any".toList
@@ -186,6 +207,7 @@ mutual
 def tyExpr : Ty → Val
   | .named n => .tyx n none
   | .int lo hi => tname .integer (intParams lo hi)
+  | .float lo lot hi hit => tname .float (floatParams lo lot hi hit)
   | .strSz lo hi => tname .string (intParams lo hi)
   | .strVal _ => tname .string []                -- by specification prints as plain String
   | .bool none => tname .boolean []
@@ -236,6 +258,7 @@ def printTy (t : Ty) : Str := printVal (tyExpr t)
 inductive Arg where
   | ty (t : Ty)
   | int (i : Int)
+  | float (bits : Nat)
   | dflt
   | str (s : Str)
   | rx (s : Str)
@@ -256,6 +279,18 @@ def newStr (lo hi : Int) : Option Ty :=
     match newInt lo' hi with
     | none => none
     | some _ => if lo' = 0 ∧ hi = i64max then some tyString else some (.strSz lo' hi)
+
+/-- a bound of `newFloatType2`: a Float value (`toFloat`: an Integer is refused) or `default` -/
+def floatOr (d : Nat) : Arg → Option Nat
+  | .float b => some b
+  | .dflt => some d
+  | _ => none
+
+/-- `NewFloatType`; the text of a bound is what the implementation prints for it (`env.ff`), and is kept only for a
+    bound that `FloatType.Parameters` prints -/
+def newFloat (env : Env) (lo hi : Nat) : Option Ty :=
+  if fkey lo > fkey hi then none
+  else some (.float lo (if lo = fNegMax then [] else env.ff lo) hi (if hi = fPosMax then [] else env.ff hi))
 
 def intOr (d : Int) : Arg → Option Int
   | .int i => some i
@@ -307,19 +342,19 @@ def newEnum (vs : List Str) (ci : Bool) : Option Ty :=
   else some (.enum vs false)
 
 /-- `newPatternType3` -/
-def patOne (rxOK : Str → Bool) : Arg → Option Str
+def patOne (env : Env) : Arg → Option Str
   | .ty (.regexp s) => some s
   | .rx s => some s
-  | .str s => if s.isEmpty then some [] else if rxOK s then some s else none
+  | .str s => if s.isEmpty then some [] else if env.rxOK s then some s else none
   | _ => none
 
-def patArgs (rxOK : Str → Bool) (fuel : Nat) (args : List Arg) : Option (List Str) :=
+def patArgs (env : Env) (fuel : Nat) (args : List Arg) : Option (List Str) :=
   match fuel with
   | 0 => none
   | f + 1 =>
     match args with
-    | [.arr as] => patArgs rxOK f as
-    | _ => args.mapM (patOne rxOK)
+    | [.arr as] => patArgs env f as
+    | _ => args.mapM (patOne env)
 
 def argTy : Arg → Option Ty
   | .ty t => some t
@@ -424,13 +459,18 @@ def wrapOf (k : WrapKind) (args : List Arg) : Option Ty :=
   | _ => none
 
 /-- the positional creator of a core type -/
-def createK (rxOK : Str → Bool) (kd : TKind) (args : List Arg) : Option Ty :=
+def createK (env : Env) (kd : TKind) (args : List Arg) : Option Ty :=
   let fuel := argDepth (.arr args) + 1
   match kd with
   | .integer =>
     match args with
     | [a] => (intOr i64min a).bind fun lo => (newInt lo i64max).map fun r => .int r.1 r.2
     | [a, b] => (intOr i64min a).bind fun lo => (intOr i64max b).bind fun hi => (newInt lo hi).map fun r => .int r.1 r.2
+    | _ => none
+  | .float =>
+    match args with
+    | [a] => (floatOr fNegMax a).bind fun lo => newFloat env lo fPosMax
+    | [a, b] => (floatOr fNegMax a).bind fun lo => (floatOr fPosMax b).bind fun hi => newFloat env lo hi
     | _ => none
   | .string =>
     match args with
@@ -446,10 +486,10 @@ def createK (rxOK : Str → Bool) (kd : TKind) (args : List Arg) : Option Ty :=
   | .enum => (enumArgs fuel args).bind fun r => newEnum r.1 r.2
   | .regexp =>
     match args with
-    | [.str s] => if s.isEmpty then some (.regexp []) else if rxOK s then some (.regexp s) else none
+    | [.str s] => if s.isEmpty then some (.regexp []) else if env.rxOK s then some (.regexp s) else none
     | [.rx s] => some (.regexp s)
     | _ => none
-  | .pattern => (patArgs rxOK fuel args).map .pattern
+  | .pattern => (patArgs env fuel args).map .pattern
   | .variant => variantArgs fuel args
   | .array =>
     let (el, sz) : Option Ty × List Arg :=
@@ -501,14 +541,15 @@ def createK (rxOK : Str → Bool) (kd : TKind) (args : List Arg) : Option Ty :=
   | .wrap k => wrapOf k args
 
 /-- `ResolveWithParams(c, name, args)` -/
-def create (rxOK : Str → Bool) (n : Str) (args : List Arg) : Option Ty :=
+def create (env : Env) (n : Str) (args : List Arg) : Option Ty :=
   match kindOf n with
-  | some kd => createK rxOK kd args
+  | some kd => createK env kd args
   | none => none
 
 /-- the default type of a parameterized core type -/
 def defaultOf : TKind → Ty
   | .integer => .int i64min i64max
+  | .float => .float fNegMax [] fPosMax []
   | .string => tyString
   | .boolean => .bool none
   | .enum => .enum [] false
@@ -530,35 +571,36 @@ def resolveName (n : Str) : Option Ty :=
 
 mutual
 /-- `DeferredType.Resolve` -/
-def resolve (rxOK : Str → Bool) : Expr → Option Ty
+def resolve (env : Env) : Expr → Option Ty
   | .dtype n none => resolveName n
-  | .dtype n (some ps) => (resolveArgs rxOK ps).bind fun args => create rxOK n args
+  | .dtype n (some ps) => (resolveArgs env ps).bind fun args => create env n args
   | _ => none
 /-- `resolveValue` on a type argument -/
-def resolveArg (rxOK : Str → Bool) : Expr → Option Arg
-  | .dtype n ps => (resolve rxOK (.dtype n ps)).map .ty
+def resolveArg (env : Env) : Expr → Option Arg
+  | .dtype n ps => (resolve env (.dtype n ps)).map .ty
   | .int i => some (.int i)
+  | .float b => some (.float b)
   | .dflt => some .dflt
   | .str s => some (.str s)
   | .regexp s => some (.rx s)
   | .bool b => some (.bool b)
-  | .arr es => (resolveArgs rxOK es).map .arr
-  | .hash es => (resolveEntries rxOK es).map .hash
+  | .arr es => (resolveArgs env es).map .arr
+  | .hash es => (resolveEntries env es).map .hash
   | _ => none
-def resolveArgs (rxOK : Str → Bool) : List Expr → Option (List Arg)
+def resolveArgs (env : Env) : List Expr → Option (List Arg)
   | [] => some []
-  | e :: es => (resolveArg rxOK e).bind fun a => (resolveArgs rxOK es).map fun as => a :: as
+  | e :: es => (resolveArg env e).bind fun a => (resolveArgs env es).map fun as => a :: as
 /-- `resolveEntry` over the entries of a hash argument -/
-def resolveEntries (rxOK : Str → Bool) : List (Expr × Expr) → Option (List (Arg × Arg))
+def resolveEntries (env : Env) : List (Expr × Expr) → Option (List (Arg × Arg))
   | [] => some []
   | (k, v) :: es =>
-    (resolveArg rxOK k).bind fun a => (resolveArg rxOK v).bind fun b => (resolveEntries rxOK es).map fun r => (a, b) :: r
+    (resolveArg env k).bind fun a => (resolveArg env v).bind fun b => (resolveEntries env es).map fun r => (a, b) :: r
 end
 
 /-- `Context.ParseType(text)` on the fragment -/
 def parseType (env : Env) (inp : List Sym) : Option Ty :=
   match parse env inp with
-  | .value e => resolve env.rxOK e
+  | .value e => resolve env e
   | _ => none
 
 end Pcore.Syntax
